@@ -73,6 +73,17 @@ pub fn gen_scenario(r: &mut Rng, big: bool) -> Scenario {
         args.push("-M".into());
         args.push(format!("{}|-|0:1:rx,g:1,0x1000:1:rw", crate::rng::hex(path.as_bytes())));
     }
+    // … and a module that ends in the linker's reserved, inaccessible tail (executable page, then PROT_NONE pages, then a
+    // hole): the tail is folded into the module's size, not into its system range (side stream)
+    if Rng::new(r.0 ^ 0x6c44_198c_4a47_5817).chance(1, 3) {
+        let path = format!("{}/tailmod.bin", crate::live::run_dir("shared"));
+        if !std::path::Path::new(&path).exists() {
+            let bytes: Vec<u8> = (0..4096u32).map(|i| (i * 13 + 1) as u8).collect();
+            std::fs::write(&path, bytes).unwrap();
+        }
+        args.push("-M".into());
+        args.push(format!("{}|-|0:1:rx,g:2", crate::rng::hex(path.as_bytes())));
+    }
     // mappings with every other protection combination (write-only, write+exec, exec-only, rwx)
     if r.chance(1, 3) {
         let path = format!("{}/protmod.bin", crate::live::run_dir("shared"));
@@ -157,6 +168,19 @@ pub fn gen_cfg(r: &mut Rng, t: &Target) -> DumpCfg {
         if gap.len() == 2 && r.chance(2, 3) {
             let (rx_end, rw_start) = (gap[0].1, gap[1].0);
             c.gregs[libc::REG_RIP as usize] = *r.pick(&[rx_end - 1, rx_end - 64, rx_end - 127, rx_end - 128, rx_end - 129, rw_start, rw_start + 1, rw_start + 127, rw_start + 128]) as i64;
+        }
+    }
+    // … or inside / around the reserved tail of a module
+    if let Some(c) = cfg.crash.as_mut() {
+        let tail: Vec<(u64, u64)> = t.maps_text().lines().filter(|l| l.ends_with("tailmod.bin")).filter_map(|l| {
+            let (a, b) = l.split_whitespace().next()?.split_once('-')?;
+            Some((u64::from_str_radix(a, 16).ok()?, u64::from_str_radix(b, 16).ok()?))
+        }).collect();
+        let mut r6 = Rng::new(c.fp_seed ^ 0x1f83_d9ab_fb41_bd6b);
+        if tail.len() == 1 && r6.chance(2, 3) {
+            let rx_end = tail[0].1;
+            c.gregs[libc::REG_RIP as usize] = *r6.pick(&[rx_end - 1, rx_end - 128, rx_end, rx_end + 1, rx_end + 127, rx_end + 128, rx_end + 129,
+                rx_end + 2048, rx_end + 8191, rx_end + 8192 - 128, rx_end + 8192]) as i64;
         }
     }
     // the blamed thread may be absent (a tid that is not a thread of the target)
